@@ -287,33 +287,49 @@ func runC15(p *P, r *R) {
 		}
 	}
 	// head advances exactly once per non-nil pop; tail once per successful push
-	adv := func(f *ssa.Function, word string, succ func(ret *ssa.Return) bool, what string) {
+	adv := func(f *ssa.Function, word string, succ func(v ssa.Value) bool, what string) {
 		stores := findInstrs(f, mStoreWord(word))
 		for _, ret := range returnsOf(f) {
 			if f.Recover != nil && ret.Block() == f.Recover {
 				continue
 			}
-			cnt := 0
-			for _, st := range stores {
-				if instrDominates(st, ret) {
-					cnt++
-					b, ok := st.(*ssa.Store).Val.(*ssa.BinOp)
-					if !ok || b.Op != token.ADD || !isLoadOf(b.X, word) {
-						cnt += 10
-					} else if c, okc := constInt(b.Y); !okc || c != 1 {
-						cnt += 10
-					}
+			// one case per way of reaching this exit with a distinct result: a result merged by a phi (single-exit
+			// style) is judged per incoming edge
+			type rcase struct {
+				v  ssa.Value
+				at *ssa.BasicBlock
+			}
+			cases := []rcase{{resultOf(ret, 0), ret.Block()}}
+			if ph, ok := cases[0].v.(*ssa.Phi); ok {
+				cases = nil
+				for i, e := range ph.Edges {
+					cases = append(cases, rcase{e, ph.Block().Preds[i]})
 				}
 			}
-			want := 0
-			if succ(ret) {
-				want = 1
+			for _, c := range cases {
+				cnt := 0
+				for _, st := range stores {
+					sb := st.Block()
+					if sb == c.at && c.at != ret.Block() || sb != c.at && sb.Dominates(c.at) || c.at == ret.Block() && instrDominates(st, ret) {
+						cnt++
+						bo, ok := st.(*ssa.Store).Val.(*ssa.BinOp)
+						if !ok || bo.Op != token.ADD || !isLoadOf(bo.X, word) {
+							cnt += 10
+						} else if k, okc := constInt(bo.Y); !okc || k != 1 {
+							cnt += 10
+						}
+					}
+				}
+				want := 0
+				if succ(c.v) {
+					want = 1
+				}
+				r.ob("R15.4", p.fname(f)+": "+what, p.ipos(ret), cnt == want, true, "%d advance(s) of %s on this exit, want %d", cnt, word, want)
 			}
-			r.ob("R15.4", p.fname(f)+": "+what, p.ipos(ret), cnt == want, true, "%d advance(s) of %s on this exit, want %d", cnt, word, want)
 		}
 	}
-	adv(pop, "streamPool.head", func(ret *ssa.Return) bool { return !isNilConst(resultOf(ret, 0)) }, "head advances exactly once when a stream is handed out and never otherwise")
-	adv(push, "streamPool.tail", func(ret *ssa.Return) bool { return isNilConst(resultOf(ret, 0)) }, "tail advances exactly once when a stream is stored and never otherwise")
+	adv(pop, "streamPool.head", func(v ssa.Value) bool { return !isNilConst(v) }, "head advances exactly once when a stream is handed out and never otherwise")
+	adv(push, "streamPool.tail", func(v ssa.Value) bool { return isNilConst(v) }, "tail advances exactly once when a stream is stored and never otherwise")
 	// pop reads the slot at head, push writes the slot at tail, both modulo capacity
 	idxOK := func(f *ssa.Function, word string) bool {
 		ok := false
@@ -326,8 +342,8 @@ func runC15(p *P, r *R) {
 		})
 		return ok
 	}
-	r.ob("R15.4", "pop: reads the slot streams[head%%capacity]", p.pos(pop.Pos()), idxOK(pop, "streamPool.head"), true, "")
-	r.ob("R15.4", "push: writes the slot streams[tail%%capacity]", p.pos(push.Pos()), idxOK(push, "streamPool.tail"), true, "")
+	r.ob("R15.4", "pop: reads the slot streams[head%capacity]", p.pos(pop.Pos()), idxOK(pop, "streamPool.head"), true, "")
+	r.ob("R15.4", "push: writes the slot streams[tail%capacity]", p.pos(push.Pos()), idxOK(push, "streamPool.tail"), true, "")
 	// R15.6 making a stream reusable never drops buffers it still owns (shared with C09 R09.12)
 	borrow(p, r, "C09", runC09, map[string]string{"R09.12": "R15.6"}, nil)
 }
